@@ -75,6 +75,25 @@ def tryadd_verdict_under_shutdown(prog, res):
               "returns 1 only on the !shutdown edge", "POOL_tryAdd can answer `accepted` while the pool is shutting down, although POOL_add_internal drops the job: an accepted job never runs")
 
 
+def worker_exits_with_nothing_to_pop(prog, res):
+    """T3: POOL_free/POOL_join promise that every accepted job has run: shutdown is only honoured by a worker that has nothing
+    it is allowed to pop.  Every path to POOL_thread's return passes the edge on which the queue is empty or the thread limit is
+    reached (the wait loop's own condition); a worker that sees `shutdown` with a job waiting pops the job."""
+    R = "T3.exactly-once"
+    f = prog.fn("POOL_thread")
+    rets = [(b, i) for b, i, r in f.returns()]
+    from ..rules import guards as _g5
+    idle = _g5.truthy_edges(f, lambda c: c.get("k") == "mem" and c.get("f") == "queueEmpty", truth=True) + \
+        _g5.rel_edges(f, lambda a: any(y.get("k") == "mem" and y.get("f") == "numThreadsBusy" for y in f.walk_resolved(a)), ">=",
+                      lambda b_: any(y.get("k") == "mem" and y.get("f") == "threadLimit" for y in f.walk_resolved(b_)), truth=True)
+    lk = [(b, i + 1) for b, i in f.call_roots(("pthread_mutex_lock", "ZSTD_pthread_mutex_lock"))]
+    rets = [t for t in rets if lk and t in f.flow(lk)]       # the `no context` return before the loop is not a worker exit
+    res.check(bool(rets) and len(idle) >= 2 and f.must_pass(via_edges=idle, starts=lk, targets=rets), R, "POOL_thread:exits-only-with-nothing-to-pop", f.loc,
+              "the worker returns only through `queueEmpty || numThreadsBusy >= threadLimit`",
+              "POOL_thread can return on `shutdown` without having seen the queue empty (or the thread limit reached): jobs accepted before POOL_free / POOL_join "
+              "and still queued are never executed")
+
+
 def emptiness_flag(prog, res):
     """T9: a pool created with queueSize 0 has a one-slot ring: queueHead == queueTail holds both when the slot is free and
     when it is taken, and `queueEmpty` is the only record of a pending job.  Outside the two places that DEFINE the flags
@@ -156,6 +175,7 @@ def run(tier):
                 reader_summaries={"AIO_ReadPool_findNextWaitingOffsetCompletedJob_locked": 1})
     aio_quiescent(prog, res)
     aio_worker_state_after_join(prog, res)
+    worker_exits_with_nothing_to_pop(prog, res)
     res.need("T2.wait-loop(aio)", 1)
     res.need("T1.guarded-by(aio)", 6)
 
